@@ -171,6 +171,42 @@ def clause_cases():
     out.append(_case({"StartAt": "A", "States": {"A": T("c", Next="B"), "B": P(End=True)}}, {}, {"c": ["const", {"Error": "x", "n": 1}]}))
     # null documents
     out.append(_case({"StartAt": "A", "States": {"A": T("c", End=True)}}, {}, {"c": ["const", None]}))
+    # the filter grid: every combination of InputPath / ResultPath / OutputPath (incl. a ResultPath that lands inside the sub-tree InputPath
+    # selected, where the result IS part of the raw input) for a Pass without Result, a Task, a Parallel and a Map
+    doc = {"id": 1, "order": {"qty": 2, "lines": [{"sku": "a"}, {"sku": "b"}]}, "items": [1, 2]}
+    absent = object()
+    for kind in ("pass", "task", "parallel", "map"):
+        for ip in (absent, "$", "$.order", "$.order.lines", None):
+            for rp in (absent, "$.res", "$.order.previous", "$.order.lines[0].x", "$", None):
+                for op in (absent, "$.order", None):
+                    if kind in ("parallel", "map") and (op is not absent or ip is None):
+                        continue
+                    st = {}
+                    for k, v in (("InputPath", ip), ("ResultPath", rp), ("OutputPath", op)):
+                        if v is not absent:
+                            st[k] = v
+                    funcs = {}
+                    if kind == "pass":
+                        st.update(Type="Pass", End=True)
+                    elif kind == "task":
+                        st.update(T("echo", End=True)); funcs = {"echo": ["echo"]}
+                    elif kind == "parallel":
+                        st.update(Type="Parallel", End=True, Branches=[{"StartAt": "b", "States": {"b": P(End=True)}}, {"StartAt": "c", "States": {"c": P(Result=1, End=True)}}])
+                    else:
+                        if ip not in (absent, "$"):
+                            continue
+                        st.update(Type="Map", End=True, ItemsPath="$.items", ItemProcessor={"StartAt": "w", "States": {"w": P(End=True)}})
+                    out.append(_case({"StartAt": "A", "States": {"A": st}}, copy.deepcopy(doc), funcs))
+    # a Map working on a sub-document while its result goes back into the raw input, with and without batches and a Catcher
+    for rp in ("$.mapped", "$.job.results", "$"):
+        for mc in (0, 1):
+            for fail in (False, True):
+                m = {"Type": "Map", "InputPath": "$.job", "ItemsPath": "$.items", "MaxConcurrency": mc, "ResultPath": rp, "End": True,
+                     "ItemProcessor": {"StartAt": "w", "States": {"w": T("bad" if fail else "echo", End=True)}}}
+                if fail:
+                    m["Catch"] = [{"ErrorEquals": ["States.ALL"], "ResultPath": "$.err", "Next": "H"}]
+                out.append(_case({"StartAt": "M", "States": {"M": m, "H": P(Result="handled", ResultPath="$.h", End=True)}},
+                                 {"id": 7, "job": {"items": [1, 2, 3], "tag": "t"}}, {"echo": ["echo"], "bad": ["fail", "Boom"]}))
     return out
 
 
